@@ -223,7 +223,7 @@ def main():
     try:
         if write_if_changed(os.path.join(OUT, "Consts.v"), gen_consts()):
             changed.append("Consts.v")
-        for modname in ("translator_dispatch", "translator_evm", "translator_gated"):
+        for modname in sorted(os.path.basename(p)[:-3] for p in __import__("glob").glob(os.path.join(os.path.dirname(os.path.abspath(__file__)), "translator_*.py"))):
             try:
                 mod = __import__(modname)
             except ImportError:
